@@ -37,6 +37,16 @@ static Plan c17_gen(uint64_t seed, int tier, uint64_t index) {
     p.cfg["eng"] = 0;
     if (r.chance(1, 3) && !(p.get("ver") == 2 && !p.get("tickets"))) { p.cfg["resume"] = 1; }
     if (p.get("ver") == 2 && r.chance(1, 2)) { p.cfg["tickets"] = 1; }     // TLS 1.3: NewSessionTicket sealed under the application key
+    if (p.get("ver") == 2 && r.chance(1, 3)) {
+        // TLS 1.3 0-RTT: early data sealed under the early traffic key, optionally across a HelloRetryRequest (second ClientHello)
+        p.cfg["resume"] = 1; p.cfg["tickets"] = 1; p.cfg["early1"] = 16384; p.cfg["early"] = r.chance(3, 4) ? 16384 : 0;
+        if (r.chance(1, 2)) { p.cfg["grp_c1"] = 23; p.cfg["grp_c2"] = 24; p.cfg["key_shares"] = 1; p.cfg["grp_s1"] = 24; }
+        int ne = 1 + (int) r.below(3);
+        for (int i = 0; i < ne; i++) { p.ops.push_back(Op("early_send", 0, LENS[r.below(5)], (int64_t) r.below(2))); }
+        p.ops.push_back(Op("steps", (int64_t) (1 + r.below(5))));
+        ne = (int) r.below(3);
+        for (int i = 0; i < ne; i++) { p.ops.push_back(Op("early_send", 0, LENS[r.below(5)], (int64_t) r.below(2))); }
+    }
     bool parked = r.chance(1, 5);
     if (parked) { int k = (int) r.below(10); if (k) { p.ops.push_back(Op("steps", k)); } }
     else { p.ops.push_back(Op("hs")); }
@@ -58,6 +68,28 @@ static Plan c17_gen(uint64_t seed, int tier, uint64_t index) {
     }
     p.ops.push_back(Op("pump"));
     return p;
+}
+
+// aimed plans: TLS 1.3 early data written before and after every early delivery point, with and without HelloRetryRequest, per suite
+static std::vector<Plan> c17_fixed(int tier) {
+    (void) tier;
+    std::vector<Plan> v;
+    static const uint16_t S13[] = { TLS_AES_128_GCM_SHA256, TLS_AES_256_GCM_SHA384, TLS_CHACHA20_POLY1305_SHA256 };
+    for (int su = 0; su < 3; su++) {
+        for (int hrr = 0; hrr < 2; hrr++) {
+            for (int k = 1; k <= 5; k++) {
+                for (int wb = 0; wb < 2; wb++) {
+                    Plan p; p.seed = 170000 + (uint64_t) (su * 1000 + hrr * 100 + k * 10 + wb);
+                    p.cfg["eng"] = 0; p.cfg["ver"] = 2; p.cfg["suite"] = S13[su]; p.cfg["sid_kind"] = KK_EC256; p.cfg["resume"] = 1; p.cfg["tickets"] = 1; p.cfg["early1"] = 16384; p.cfg["early"] = 16384;
+                    if (hrr) { p.cfg["grp_c1"] = 23; p.cfg["grp_c2"] = 24; p.cfg["key_shares"] = 1; p.cfg["grp_s1"] = 24; }
+                    p.ops.push_back(Op("early_send", 0, 100, wb)); p.ops.push_back(Op("steps", k)); p.ops.push_back(Op("early_send", 0, 120, wb));
+                    p.ops.push_back(Op("hs")); p.ops.push_back(Op("send", 0, 300)); p.ops.push_back(Op("send", 1, 300)); p.ops.push_back(Op("pump"));
+                    v.push_back(p);
+                }
+            }
+        }
+    }
+    return v;
 }
 
 static RunResult c17_exec(const Plan &p) {
@@ -101,9 +133,9 @@ static ModuleRegistrar reg({ "C17", "proto+dtls", "exploration",
     "every AEAD seal and CBC record encryption of every session in a run is observed by link-time probes (key-schedule digest, nonce, AAD digest, plaintext digest, first/last ciphertext block) and audited: "
     "no two seals under one key with equal nonce unless byte-identical, TLS 1.2 GCM explicit nonce strictly increasing, each CBC explicit IV block equals a fresh entropy draw made for that record, wire IVs pairwise distinct per key. "
     "workloads: TLS runs with data (up to multi-record writes), alerts provoked by corruption, closure, replays, TLS 1.3 handshake/application phases with NewSessionTicket, resumption; "
-    "DTLS runs with loss/dup/delay so encrypted flights are retransmitted, replays, resumed handshakes. non-trivial = at least one record was sealed; distinct = distinct history fingerprint",
+    "TLS 1.3 0-RTT (early data written before and after every early delivery point, with and without HelloRetryRequest); DTLS runs with loss/dup/delay so encrypted flights are retransmitted, replays, resumed handshakes. non-trivial = at least one record was sealed; distinct = distinct history fingerprint",
     c17_gen, c17_exec, 4000, 120000, 75, 1200,
     { "core (incl. osdep.c)", "crypto (the primitives run unmodified; the probes forward to them)", "matrixssl" },
     { "transport", "attacker", "applications", "clock", "entropy (also the reference for IV freshness)", "allocator front-end", "AEAD/CBC probes (link-time wraps, observe only)" },
     { "key identity is the digest of the first 32 bytes of the cipher context (key schedule), scoped to the owning ssl_t", "entropy failures are not injected here (covered by C19)" },
-    "asan", nullptr, false });
+    "asan", c17_fixed, false });
